@@ -19,7 +19,7 @@ RULE = (
     "outcome = (op kind, pattern of outdated flags after it, pattern of evaluated nodes)."
 )
 ASSUMPTIONS = [
-    "node functions are pure; values are interned structures (injective), so equality of values is equality of provenance",
+    "node functions are pure; values are content-based terms (injective), so equality of values is equality of provenance",
     "save/restore is explored compositionally: restore of every reachable saved state into every reachable current state, continuing the search whenever the result is a new state",
     "snapshots are restored by writing _value/_outdated/_auto_update directly; a self-check replays BFS histories on fresh models through the public API only",
 ]
@@ -75,11 +75,11 @@ def units(tier, seed):
 class Machine:
     """Real model + reference bookkeeping for one program."""
 
-    def __init__(self, program, intern=None):
+    def __init__(self, program):
         import jax
 
         self.jax = jax
-        self.b = programs.Built(program, intern=intern)
+        self.b = programs.Built(program)
         b = self.b
         self.m = b.model
         self.names = list(self.m.nodes)  # fixed order
@@ -220,7 +220,7 @@ class Machine:
             self.slot = (m.state, dict(self.inputs_ref), dict(self.dirty), dict(self.seeds_ref))
         elif kind in ("restore", "restore-from"):
             if kind == "restore-from":
-                other = Machine(self.b.program, intern=self.b.intern)
+                other = Machine(self.b.program)
                 for o in op[1]:
                     other.execute(tuple(o))
                 other.execute(("save",))
@@ -266,8 +266,8 @@ class Machine:
                 if not o:
                     val = n.value
                     if val != ref[i]:
-                        problems.append(("O1-stale", f"node {n.name} reports up-to-date but holds {b.intern.decode(val) if isinstance(val, int) else val} != from-scratch {b.intern.decode(ref[i])}"))
-        tot = {"_model_log_prob": 0, "_model_log_lik": 0, "_model_log_prior": 0}
+                        problems.append(("O1-stale", f"node {n.name} reports up-to-date but holds {val} != from-scratch {ref[i]}"))
+        tot = {"_model_log_prob": programs.Sym(), "_model_log_lik": programs.Sym(), "_model_log_prior": programs.Sym()}
         for i, it in enumerate(self.items):
             if it["kind"] == "dist":
                 tot["_model_log_prob"] += ref[i]
@@ -413,7 +413,7 @@ def explore_program(res: core.UnitResult, program: dict, pair_limit: int = 48):
     picked = cs[::stride] + cs[-1:]
     for c in picked:
         hist = out["history"](c)
-        fresh = Machine(program, intern=mach.b.intern)
+        fresh = Machine(program)
         for op in hist:
             fresh.execute(op)
         got = fresh.canon(fresh.snapshot())
